@@ -353,3 +353,7 @@ PROPS["C11"]["quick"].append({"variant": "default", "cases": 6000, "params": {"w
 PROPS["C11"]["thorough"].append({"variant": "default", "cases": 300000, "params": {"with_q": 1, "case_timeout": 60}, "timeout": 3000})
 PROPS["C12"]["quick"].append({"variant": "default", "cases": 4000, "params": {"with_q": 1, "case_timeout": 30}, "timeout": 600})
 PROPS["C12"]["thorough"].append({"variant": "default", "cases": 150000, "params": {"with_q": 1, "case_timeout": 60}, "timeout": 3000})
+
+# C14 sparse lane: handles are read for the first time after the last operation (see the sparse lanes above)
+PROPS["C14"]["quick"].append({"variant": "default", "cases": 6000, "params": {"sparse": 1}, "timeout": 600})
+PROPS["C14"]["thorough"].append({"variant": "default", "cases": 150000, "params": {"sparse": 1, "case_timeout": 120}, "timeout": 3000})
